@@ -231,6 +231,88 @@ class _RotateLoops(ast.NodeTransformer):
         return node
 
 
+class _IndexLoops(ast.NodeTransformer):
+    """`i = 0; while i < len(X): B(X[i]); i += 1`  ->  `i = 0; for __x in X: B(__x)`  when i is used for nothing but X[i], neither i nor X is
+    stored in B, B has no continue and i is not read after the loop: the index walk of a sequence is the walk of its elements."""
+
+    def visit_FunctionDef(self, fn):
+        self.generic_visit(fn)
+        uses = {}
+        for n in ast.walk(fn):
+            if isinstance(n, ast.Name):
+                uses[n.id] = uses.get(n.id, 0) + 1
+        self._blocks(fn, uses)
+        return fn
+
+    def _blocks(self, node, uses):
+        for f in ("body", "orelse", "finalbody"):
+            v = getattr(node, f, None)
+            if isinstance(v, list) and v and isinstance(v[0], ast.stmt):
+                for k in range(1, len(v)):
+                    r = self._rewrite(v[k - 1], v[k], uses)
+                    if r is not None:
+                        v[k] = r
+                for st in v:
+                    if not isinstance(st, (ast.FunctionDef, ast.ClassDef)):
+                        self._blocks(st, uses)
+        for h in getattr(node, "handlers", []):
+            self._blocks(h, uses)
+
+    @staticmethod
+    def _rewrite(a, w, uses):
+        if not (isinstance(a, ast.Assign) and len(a.targets) == 1 and isinstance(a.targets[0], ast.Name)
+                and isinstance(a.value, ast.Constant) and a.value.value == 0 and type(a.value.value) is int):
+            return None
+        i = a.targets[0].id
+        t = w.test if isinstance(w, ast.While) else None
+        if not (t is not None and not w.orelse and len(w.body) >= 2 and isinstance(t, ast.Compare) and len(t.ops) == 1 and isinstance(t.ops[0], ast.Lt)
+                and isinstance(t.left, ast.Name) and t.left.id == i and isinstance(t.comparators[0], ast.Call)
+                and isinstance(t.comparators[0].func, ast.Name) and t.comparators[0].func.id == "len" and len(t.comparators[0].args) == 1
+                and isinstance(t.comparators[0].args[0], ast.Name)):
+            return None
+        xs = t.comparators[0].args[0].id
+        last = w.body[-1]
+        if not (isinstance(last, ast.AugAssign) and isinstance(last.op, ast.Add) and isinstance(last.target, ast.Name) and last.target.id == i
+                and isinstance(last.value, ast.Constant) and last.value.value == 1):
+            return None
+        body = w.body[:-1]
+        if _has_continue(body):
+            return None
+        n_i = 0
+        subs = []
+        for st in body:
+            for n in ast.walk(st):
+                if isinstance(n, ast.Name) and n.id in (i, xs) and not isinstance(n.ctx, ast.Load):
+                    return None
+                if isinstance(n, ast.Name) and n.id == i:
+                    n_i += 1
+                if isinstance(n, ast.Subscript) and isinstance(n.value, ast.Name) and n.value.id == xs and isinstance(n.slice, ast.Name) \
+                        and n.slice.id == i and isinstance(n.ctx, ast.Load):
+                    subs.append(n)
+                elif isinstance(n, ast.Name) and n.id == xs and not any(n is q.value for q in subs):
+                    pass
+        if n_i != len(subs) or not subs or uses.get(i, 0) != n_i + 3:      # the initial store, the test, the increment
+            return None
+        # X itself must not be touched in the body other than through X[i] (a body that grows or shrinks X changes the walk)
+        n_x = sum(1 for st in body for n in ast.walk(st) if isinstance(n, ast.Name) and n.id == xs)
+        if n_x != len(subs):
+            return None
+        elem = "__elem_%s" % i
+
+        class R(ast.NodeTransformer):
+            def visit_Subscript(self, n):
+                if n in subs:
+                    return ast.copy_location(ast.Name(id=elem, ctx=ast.Load()), n)
+                return self.generic_visit(n)
+        f = ast.For(target=ast.Name(id=elem, ctx=ast.Store()), iter=ast.Name(id=xs, ctx=ast.Load()), body=[R().visit(st) for st in body], orelse=[])
+        ast.copy_location(f, w)
+        ast.copy_location(f.target, w)
+        ast.copy_location(f.iter, w)
+        return f
+
+    visit_AsyncFunctionDef = visit_FunctionDef
+
+
 class ModuleInfo:
     def __init__(self, name, path, src):
         self.name = name
@@ -244,7 +326,7 @@ class ModuleInfo:
         if name != "mqtt.pdu":
             # (the codec module is read by the layout extractors, which match loop shapes as written; the path engine treats its
             # encode/decode as atomic events)
-            self.tree = ast.fix_missing_locations(_RotateLoops().visit(self.tree))
+            self.tree = ast.fix_missing_locations(_RotateLoops().visit(_IndexLoops().visit(self.tree)))
         self.imports = {}   # local name -> ('mod', dotted) | ('from', dotted_module, name)
         self.consts = {}    # name -> value expr (module-level assignments)
         self.classes = {}
